@@ -174,8 +174,19 @@ class Hist:
         ok, S_on = ctx.guard("fresh-snapshot", wit, snap, p0, ms)
         if not ok:
             return
-        p = self.fresh(True)
+        p = None
+        if workload != "enum" and r.random() < 0.12:
+            # the object of this history had its first parse() abandoned somewhere in the library's code (Ctrl-C) and was then parsed again
+            ok, p = ctx.guard("parse-after-abandoned-parse", wit, snapshot.parse_after_an_interrupted_parse, ctx, self.text)
+            if ok and p is not None:
+                wit["first_parse_of_the_object_was_abandoned"] = True
+        if p is None:
+            p = self.fresh(True)
         self.walk(p, wit)
+        ok, s_start = ctx.guard("history:snapshot-raised:at-the-start", wit, snap, p, ms)
+        if ok and s_start != S_on:
+            ctx.violate("history:differs-from-fresh:at-the-start", diff_keys(S_on, s_start), wit)
+            return
         mode_on = True
         S_off = None
         last = None
